@@ -151,7 +151,7 @@ OKP(p, v, fl) == [ok |-> TRUE, pos |-> p, v |-> v, fl |-> fl]
 RdVal(e, b, p, t, d, fl0) ==
   LET x == N(e, t)
       fl == fl0 - 1 IN
-  IF d > MaxDepth THEN F
+  IF d > MaxDepth THEN BOMB       \* deeper than the specification follows (the implementation's limit is its stack guard): not judged
   ELSE IF fl0 <= 0 THEN BOMB
   ELSE CASE x.k \in {"null"} -> OKP(p, Null, fl)
     [] x.k = "reserved" -> OKP(p, Res, fl)
